@@ -42,7 +42,7 @@ def check(run, tier):
     )
     q = tier == "quick"
     run.mc("MC_Split", "MC_Split" if q else "MC_Split_thorough")
-    # unbounded: the balanced split is valid and minimal for EVERY volume and EVERY positive max_volume (TLAPS, 81 obligations)
+    # unbounded: the balanced split is valid and minimal for EVERY volume and EVERY positive max_volume (TLAPS, 148 obligations; also the multi-dispense rule)
     run.tlaps("SplitValid")
     # the configuration is part of the state of the twin model: SetCfg steps between the operations (family "config")
     run.mc("MC_Twin", "MC_Twin_config")
